@@ -85,6 +85,14 @@ def dispatch1 (op : String) (args : List String) : Option String :=
       match decodeADTS bs with
       | .error _ => "err"
       | .ok (a, off) => s!"{a.id} {a.objectType} {a.samplingFrequencyIndex} {a.channelConfig} {a.headerLength} {a.payloadLength} {a.bufferFullness} off={off}"
+  -- a decoded header (possibly of a CRC-protected frame, header length 9) is encoded again and decoded
+  | "adts.reenc", [h] => (fromHex h).map fun bs =>
+      match decodeADTS bs with
+      | .error _ => "err"
+      | .ok (a, _) =>
+        match decodeADTS (encodeADTS a) with
+        | .error _ => "err2"
+        | .ok (b, off) => s!"{b.id} {b.objectType} {b.samplingFrequencyIndex} {b.channelConfig} {b.headerLength} {b.payloadLength} {b.bufferFullness} off={off}"
   | _, _ => esdsDispatch op args
 
 /-- the token list of a `hist` request cut at the `|` tokens -/
